@@ -77,6 +77,10 @@ func envOr(k, d string) string {
 }
 
 func main() {
+	if os.Getenv("VERIF_SELF_DELETE") != "" {
+		// the launcher builds a per-invocation binary and execs it; remove it right away
+		os.Remove(os.Args[0])
+	}
 	if len(os.Args) < 2 {
 		usage()
 	}
